@@ -21,7 +21,7 @@
    critical trait, a failed request returns its error.
    The role status/state folds are those of RoleTree.v (property C11).
    Definitions only; lemmas live in proofs/TaskCmd_proofs.v. *)
-From Verif Require Import Common RoleTree Gen_FilteredPure.
+From Verif Require Import Common RoleTree Gen_FilteredPure Gen_ExecutorReplies.
 Open Scope N_scope.
 
 (* ------------------------------------------------------------------ *)
@@ -119,7 +119,19 @@ Definition targets (ts : list rtask) : list (nat * rtask) :=
 
 (* commit: every target yields exactly one response; it carries an error unless the task
    acknowledged (error reply, send error, or timeout turned into an error response) *)
-Definition resp_err (o : outc) : bool := negb (is_ack o).
+(* The core judges an answer by its error text alone (Servent.ProcessResponse, commit, configureTasks
+   / transitionTasks never look at the reported state): that a response without error means "the
+   task performed the transition" is the executor's business - its message handler answers without
+   error only for a task whose Transition it executed, passes a refusal on with its error text, and
+   says nothing for a task it no longer runs (the core then times out).  [executor_faithful] is
+   computed from the probe of the real handler (executor/handlers.go, handleMessageEvent) that
+   h02 -gen makes on every run (gen/Gen_ExecutorReplies.v).  When the probe does not say so an answer
+   without error proves nothing and nothing is promised: every outcome is modelled as acknowledged. *)
+Definition executor_faithful : bool :=
+  N.ltb 0 executor_probe_cases && N.eqb executor_ack_without_transition 0 &&
+  N.eqb executor_ack_lost 0 && N.eqb executor_refusal_without_error 0 && N.eqb executor_wrong_task_ran 0.
+
+Definition resp_err (o : outc) : bool := executor_faithful && negb (is_ack o).
 Definition commit (tg : list (nat * rtask)) (oc : list outc) : list (bool * bool) :=
   map (fun p => (r_crit (snd p), resp_err (oc_at oc (fst p)))) tg.      (* (critical, has error) *)
 
